@@ -1,5 +1,5 @@
 (* C08: grouping is a partition by key; every accumulator computes an
-   admissible value of its aggregate (outside the regions of the findings). *)
+   admissible value of its aggregate. *)
 From Coq Require Import Permutation.
 From RV Require Import Modifiers.Model Modifiers.Order.
 
@@ -255,83 +255,41 @@ Lemma ext_max_spec l : max_good (ext_raw true l) (bound l).
 Proof. apply (max_fold l None []). reflexivity. Qed.
 
 (* ------------------------------------------------------------------ *)
-(* an accumulator outside the regions of the findings *)
-Definition agg_safe (a : aggspec) (m : list sol) : Prop :=
-  match a_arg a with
-  | None => True
-  | Some v =>
-      (kind_needs_bound (a_kind a) && a_distinct a && has_unbound (ovals v m) = false)
-      /\ (is_kind_sum (a_kind a) || is_kind_avg (a_kind a) = true ->
-          forallb is_numeric (bound (ovals v m)) = true)
-  end.
-
-Definition ext_safe (a : aggspec) (m : list sol) : Prop :=
-  match a_arg a, a_kind a with
-  | Some v, AMin => non_literal (ext_raw false (ovals v m)) = false
-  | Some v, AMax => non_literal (ext_raw true (ovals v m)) = false
-  | _, _ => True
-  end.
-
-Lemma use_rows_sub d l x : In x (use_rows d l) -> In x l.
-Proof. unfold use_rows. destruct d; auto. apply (dedup_In _ _ term_eqb_spec). Qed.
-
-Lemma agg_run_some a m : agg_safe a m -> exists o, agg_run a m = Some o.
+(* every accumulator returns an admissible value of its aggregate *)
+Theorem agg_run_adm a m : agg_adm a m (agg_run a m) = true.
 Proof.
-  unfold agg_safe, agg_run. destruct (a_arg a) as [v|]; [|eauto].
-  intros [H4 H1]. destruct (a_kind a) eqn:K; simpl in *; eauto.
-  - rewrite H4.
-    rewrite (forallb_sub is_numeric (bound (ovals v m))); eauto using use_rows_sub.
-  - rewrite H4. destruct (nums_of _); eauto.
-  - rewrite H4. eauto.
-Qed.
-
-Lemma as_literal_id t : non_literal (Some t) = false -> as_literal t = t.
-Proof. destruct t; simpl; auto; discriminate. Qed.
-
-Lemma agg_run_adm a m o :
-  agg_safe a m -> ext_safe a m -> agg_run a m = Some o -> agg_adm a m o = true.
-Proof.
-  unfold agg_safe, ext_safe, agg_run, agg_adm. destruct (a_arg a) as [v|].
-  2:{ intros _ _ E. inversion E; subst. apply oterm_eqb_refl. }
-  intros [H4 H1] H3. unfold use_rows.
-  set (vals := bound (ovals v m)) in *.
-  set (dv := if a_distinct a then dedup term_eqb vals else vals) in *.
-  assert (Hsub : forall x, In x dv -> In x vals).
-  { intros x. unfold dv. destruct (a_distinct a); auto. apply (dedup_In _ _ term_eqb_spec). }
-  destruct (a_kind a) eqn:K; simpl in *.
-  - (* COUNT *) intros E; inversion E; subst. apply oterm_eqb_refl.
-  - (* SUM *) rewrite H4.
-    assert (Hn : forallb is_numeric dv = true) by (apply (forallb_sub _ vals); auto).
-    rewrite Hn. intros E; inversion E; subst. apply num_same_lit.
-  - (* AVG *) rewrite H4.
-    assert (Hv : forallb is_numeric vals = true) by auto.
-    assert (Hn : forallb is_numeric dv = true) by (apply (forallb_sub _ vals); auto).
-    rewrite (filter_all _ _ Hv). fold dv. rewrite Hn.
-    destruct dv as [|x dv'] eqn:Edv.
-    + simpl. intros E; inversion E; subst. reflexivity.
-    + pose proof (nums_of_length _ Hn) as Hlen.
-      destruct (nums_of (x :: dv')) as [|n ns] eqn:En; [simpl in Hlen; discriminate|].
-      intros E; inversion E; subst. rewrite <- Hlen. apply num_same_avg.
-  - (* MIN *) intros E; inversion E; subst. clear E.
+  unfold agg_run, agg_adm. destruct (a_arg a) as [v|]; [|apply oterm_eqb_refl].
+  unfold use_rows.
+  set (vals := bound (ovals v m)).
+  set (dv := if a_distinct a then dedup term_eqb vals else vals).
+  destruct (a_kind a) eqn:K.
+  - (* COUNT *) apply oterm_eqb_refl.
+  - (* SUM *) destruct (forallb is_numeric dv); [apply num_same_lit|reflexivity].
+  - (* AVG *) destruct (forallb is_numeric dv) eqn:Hn; [|reflexivity].
+    destruct dv as [|x dv'] eqn:Edv; [reflexivity|].
+    pose proof (nums_of_length _ Hn) as Hlen.
+    destruct (nums_of (x :: dv')) as [|n ns] eqn:En; [simpl in Hlen; discriminate|].
+    rewrite <- Hlen. apply num_same_avg.
+  - (* MIN *)
     pose proof (ext_min_spec (ovals v m)) as G. fold vals in G.
     destruct (ext_raw false (ovals v m)) as [t|]; simpl in *.
-    + destruct G as [Hin Hmin]. rewrite (as_literal_id _ H3).
+    + destruct G as [Hin Hmin].
       destruct vals as [|y vs] eqn:Ev; [destruct Hin|].
       apply andb_true_iff. split.
       * apply (memb_In _ term_eqb_spec). exact Hin.
       * apply forallb_forall. intros x Hx. unfold kle. now rewrite (Hmin x Hx).
     + now rewrite G.
-  - (* MAX *) intros E; inversion E; subst. clear E.
+  - (* MAX *)
     pose proof (ext_max_spec (ovals v m)) as G. fold vals in G.
     destruct (ext_raw true (ovals v m)) as [t|]; simpl in *.
-    + destruct G as [Hin Hmax]. rewrite (as_literal_id _ H3).
+    + destruct G as [Hin Hmax].
       destruct vals as [|y vs] eqn:Ev; [destruct Hin|].
       apply andb_true_iff. split.
       * apply (memb_In _ term_eqb_spec). exact Hin.
       * apply forallb_forall. intros x Hx. unfold kle. now rewrite (Hmax x Hx).
     + now rewrite G.
-  - (* SAMPLE *) intros E; inversion E; subst.
+  - (* SAMPLE *)
     destruct vals as [|y vs]; simpl; auto. now rewrite term_eqb_refl.
-  - (* GROUP_CONCAT *) rewrite H4. intros E; inversion E; subst.
+  - (* GROUP_CONCAT *)
     rewrite <- (map_length term_str dv). apply concat_match_join.
 Qed.
